@@ -1322,3 +1322,18 @@ Proof.
   destruct o as [r | id st sub start fin | id]; simpl in *; [| | exact I];
     apply andb_true_iff in H; destruct H as [H1 H2]; split; apply representableb_sound; assumption.
 Qed.
+
+(* ------------------------------------------------------------------ Exists under read faults *)
+Lemma cs_exists_healthy : forall s id, cs_exists_reply (store_reply s id) = Some (cs_exists s id).
+Proof.
+  intros s id. unfold store_reply, cs_exists. destruct (existsb (N.eqb id) (cs_plans s)); reflexivity.
+Qed.
+
+Lemma cs_exists_false_only_on_404 : forall r, cs_exists_reply r = Some false -> r = RStatus 404.
+Proof.
+  intros [|code|]; simpl; try discriminate. destruct (Nat.eqb code 404) eqn:E; [|discriminate].
+  apply Nat.eqb_eq in E. subst. reflexivity.
+Qed.
+
+Lemma cs_exists_true_only_on_found : forall r, cs_exists_reply r = Some true -> r = RFound.
+Proof. intros [|code|]; simpl; try discriminate; [reflexivity|]. destruct (Nat.eqb code 404); discriminate. Qed.
